@@ -24,6 +24,11 @@ type Variant struct {
 type Actor struct {
 	Label    string // stable across runs
 	Rank     int    // default priority class (lower first)
+	// Urgent actors pre-empt everything else: while one is enabled only urgent actors are offered.
+	// Used to make a window atomic in which a sarama goroutine that owns a multi-way select is
+	// blocked mid-body (two senders queueing on that select would be resolved by Go's random
+	// select order, which the controller cannot own).
+	Urgent bool
 	Variants []Variant
 }
 
@@ -179,6 +184,19 @@ func (c *Ctl) enabled() []Actor {
 	}
 	for _, p := range c.Providers {
 		acts = append(acts, p()...)
+	}
+	urgent := false
+	for _, a := range acts {
+		urgent = urgent || a.Urgent
+	}
+	if urgent {
+		var u []Actor
+		for _, a := range acts {
+			if a.Urgent {
+				u = append(u, a)
+			}
+		}
+		acts = u
 	}
 	sort.SliceStable(acts, func(i, j int) bool {
 		pi, pj := c.postponed[acts[i].Label], c.postponed[acts[j].Label]
